@@ -28,9 +28,41 @@ Theorem C13_logged_outcome_never_reversed :
     aget (pending (co d)) tx = None /\
     forall ss, forallb (fun s => negb (begins tx s)) ss = true ->
       forall s out, In (s, out) (replies now (co d) ss) ->
-        (targets tx s = true -> out = [1; 1]) /\ (forall t, s = Timeouts t -> ~ In tx (tl out)).
+        (targets tx s = true -> out = [1; 1]) /\ (forall t o, s = Timeouts t o -> ~ In tx (tl out)).
 Proof.
   intros ser deser crc. exact (outcome_never_reversed ser deser crc gen_vote_scan_live gen_vote_first_wins).
+Qed.
+
+(* The timeout sweeper's decision is a logged decision: every transaction id cleanup_timeouts()
+   reports has left the pending table and the records the call wrote contain its TxComplete{Aborted}
+   (after the phase change to Aborting), none of them a begin. *)
+Theorem C13_timeout_abort_is_logged : forall now c t order c' w out tx,
+  step now c (Timeouts t order) = (c', w, out) -> In tx (tl out) ->
+  In (TComplete tx false) w /\ aget (pending c') tx = None /\ (forall e, In e w -> forall x, is_begin x e = false).
+Proof. exact timed_out_is_logged. Qed.
+
+(* ... so a timed-out transaction (whose abort is broadcast to the participants) is never committed
+   after a restart: ES0 = what was logged before the sweep, w = what the sweep wrote, ES1 = anything
+   logged afterwards (not a begin of the same id); for a crash at ANY byte after the sweep's records
+   the restarted coordinator does not hold tx, and for every continuation of calls commit / abort /
+   complete_* aimed at it fail with "not found" and no sweep reports it again. *)
+Theorem C13_timed_out_never_committed :
+  forall (ser : tentry -> list byte) (deser : list byte -> option tentry) (crc : list byte -> N),
+  (forall e, deser (ser e) = Some e) -> (forall d, crc d < 4294967296) -> (forall e, wf ser e) ->
+  forall now0 c t order c' w out tx,
+  step now0 c (Timeouts t order) = (c', w, out) -> In tx (tl out) ->
+  forall now ES0 ES1 k,
+  (bytes_upto ser crc true (ES0 ++ w ++ ES1) (length (ES0 ++ w)) <= k)%nat ->
+  forallb (fun e => negb (is_begin tx e)) ES1 = true ->
+  exists d stats,
+    restart deser crc gen_tx_tail_repair gen_vote_scan_live gen_vote_first_wins now
+            (firstn k (log_bytes ser crc true (ES0 ++ w ++ ES1))) = Some (d, stats) /\
+    aget (pending (co d)) tx = None /\
+    forall ss, forallb (fun s => negb (begins tx s)) ss = true ->
+      forall s out, In (s, out) (replies now (co d) ss) ->
+        (targets tx s = true -> out = [1; 1]) /\ (forall t o, s = Timeouts t o -> ~ In tx (tl out)).
+Proof.
+  intros ser deser crc. exact (timed_out_never_committed ser deser crc gen_vote_scan_live gen_vote_first_wins).
 Qed.
 
 (* Clauses 2-4 + "crash at any byte": the restart never fails; the restarted coordinator holds
@@ -122,6 +154,31 @@ Theorem C13_completion_logged_before_release : forall now c tx order c' w out,
                /\ forall e, In e rest -> match e with TLockRelease _ _ | TAllReleased _ => True | _ => False end.
 Proof. exact complete_logged_before_release. Qed.
 
+(* LIMIT of the statement, made precise.  TxComplete{Committed} is written by commit() only (in the
+   same critical section as Prepared -> Committing); complete_commit / complete_abort -- the calls
+   that finish a transaction restored as Committing / Aborting -- write NOTHING.  So "completed as
+   committed" through complete_commit is never a LOGGED completion: the premise of
+   C13_logged_outcome_never_reversed cannot be met through that call, the transaction comes back as
+   Committing after every later restart, and abort() (no phase check) or the timeout sweeper can
+   then abort it.  The witness is the history the harness corpus "complete-commit-is-not-durable"
+   runs on the real coordinator. *)
+Theorem C13_complete_calls_log_nothing : forall now c tx,
+  snd (fst (step now c (CompleteCommit tx))) = [] /\ snd (fst (step now c (CompleteAbort tx))) = [].
+Proof.
+  intros now c tx. cbn [step]. destruct (aget (pending c) tx) as [t|]; [|split; reflexivity].
+  destruct (negb (phase t =? COMMITTING)); destruct (negb (phase t =? ABORTING)); split; reflexivity.
+Qed.
+
+Theorem C13_unlogged_completion_witness :
+  let es := [TBegin 0 [0]; TVote 0 0 (VYes 0); TPhase 0 PREPARING PREPARED; TPhase 0 PREPARED COMMITTING] in
+  let c2 := fst (recover_entries true true 2000 es) in
+  let r := step 2000 c2 (CompleteCommit 0) in
+  snd r = [0] /\ snd (fst r) = [] /\ aget (pending (fst (fst r))) 0 = None /\
+  let c3 := fst (recover_entries true true 3000 (es ++ snd (fst r))) in
+  (exists t, aget (pending c3) 0 = Some t /\ phase t = COMMITTING) /\
+  step 3000 c3 (Abort 0) = (Co [] [] 5000, [TPhase 0 COMMITTING ABORTING; TComplete 0 false], [0]).
+Proof. vm_compute. repeat split. eexists. split; reflexivity. Qed.
+
 (* non-vacuity: a concrete log with a committed transaction, a prepared one and one still
    collecting votes satisfies the hypotheses (position 5 holds TxComplete of tx 0) *)
 Example C13_hypotheses_satisfiable :
@@ -133,8 +190,19 @@ Example C13_hypotheses_satisfiable :
   aget (in_prog (fold_left (scan_step true) ES sc0)) 2 = Some ([0], [], PREPARING).
 Proof. vm_compute. repeat split; reflexivity. Qed.
 
+(* non-vacuity of the timeout theorems: a prepared transaction that times out is reported and logged *)
+Example C13_timeout_hypotheses_satisfiable :
+  let c := fst (run_steps 1000 co0 [Begin 0 [0]; Vote 0 0 (VYes 0)]) in
+  step 7000 c (Timeouts 7000 [0]) =
+    (Co [] [] 5000, [TPhase 0 PREPARED ABORTING; TComplete 0 false], [3; 0]).
+Proof. vm_compute. reflexivity. Qed.
+
 Print Assumptions C13_logged_outcome_never_reversed.
+Print Assumptions C13_timeout_abort_is_logged.
+Print Assumptions C13_timed_out_never_committed.
 Print Assumptions C13_recovered_table.
+Print Assumptions C13_complete_calls_log_nothing.
+Print Assumptions C13_unlogged_completion_witness.
 Print Assumptions C13_repeated_restarts.
 Print Assumptions C13_completion_logged_before_release.
 Print Assumptions C13_prepared_comes_back_with_live_votes.
